@@ -595,7 +595,7 @@ def c11(rng, count):
     g = 0
     while len(out) < count:
         g += 1
-        kind = rng.choice(["general", "fast", "chars", "lines", "stream", "json"])
+        kind = rng.choice(["general", "fast", "chars", "lines", "stream"])
         delim = rng.choice([b"-", b",", b"--"]) if kind in ("general", "json") else rng.choice([b"-", b","])
         if kind == "general":
             argv = ["-d", delim, "-f", gen_bounds(rng, fillers=["", "x", " ", "{{", "é"])] + [a for a in field_opts(rng, delim)]
@@ -618,6 +618,8 @@ def c11(rng, count):
         else:
             alpha = list(b"ab\r\n\0\0\n ") + [delim[0]]
             data = bytes(rng.choice(alpha) for _ in range(rng.randint(0, 12)))
+        if any("\\n" in a for a in argv if isinstance(a, str)):
+            continue        # option text that renders to LF is not neutral under the exchange
         out.append(Case(argv, data, tags={"grp": g, "role": "lf"}))
         out.append(Case(argv + ["-z"], data.translate(sw), tags={"grp": g, "role": "nul"}))
     return out
@@ -711,7 +713,8 @@ def c18(rng, count, maxlen=3):
     for s in c18_strings(maxlen):
         out.append(Case([], s.encode(), entry="bounds"))
     # longer random strings from the same alphabet, biased towards well-formed pieces
-    toks = ["1", "2", "-1", "10", "1:2", "2:", ":3", "-3:-1", "=x", "=", ",", "{", "}", "{{", "}}", "\\n", "\\t", "\\\\", "a", " ", "é", "+2", "0", ":", "1:2=a:b", "{1}", "{2,3}", "{1=x}"]
+    toks = ["1", "2", "-1", "10", "1:2", "2:", ":3", "-3:-1", "=x", "=", ",", "{", "}", "{{", "}}", "\\n", "\\t", "\\\\", "a", " ", "é", "+2", "0", ":", "1:2=a:b", "{1}", "{2,3}", "{1=x}",
+            "\\", "n", "t", "{1}", "{2}", "{1}", "\\{{", "\\}}"]
     n0 = len(out)
     while len(out) < n0 + count:
         s = "".join(rng.choice(toks) for _ in range(rng.randint(1, 6)))
@@ -746,6 +749,14 @@ def c19(rng, count, full=False):
         if variant and variant.get("bounds") and mode:
             argv[1] = variant["bounds"]
         return argv
+    # -M eligibility: every bounds shape, alone and with one more option
+    shapes = ["1,2", "2,1", "1,1", "1:2,2", "1:2,3", "1,:3", ":1,:2", ":2,3", "1:,2", "-1", "x{1}y", "{1}{2}", "2:3,3", "1,3:",
+              "1:3,2", ":1,2", "1,2:2", "2,:2", "1,2,2", "1:1,1"]
+    extras = [[], ["-j"], ["-r", "/"], ["-r", "//"], ["-z"], ["--fallback-oob", "x"], ["-s"], ["-g"], ["-p"], ["-m"], ["-t", "l"],
+              ["--json"], ["-e", "-"], ["-d", "--"]]
+    for b in shapes:
+        for e in extras:
+            out.append(Case(["-f", b, "-d", "-", "-M", "1"] + e, stdin))
     if full:
         for mode in modes:
             for mask in range(1 << len(OPTS19)):
